@@ -173,6 +173,15 @@ def check(ctx, rep):
             if p.status != "return":
                 continue
             mk = [e for e in p.calls() if e.d["func"] == ("class", prog.cls(cname).key)]
+            FS = ("seq", (), ("param", fi.vararg), 0)
+            more = None
+            for t_, v_, b_ in q.atoms(p):
+                if t_ == FS or t_ == ("param", fi.vararg):
+                    more = v_
+                elif isinstance(t_, tuple) and t_[0] == "call" and t_[1] == ("name", "len") and t_[2] in ((FS,), (("param", fi.vararg),)):
+                    more = v_
+            if more is not None:
+                rep.ob("R-FANOUT", "%s: a lone input is returned as is, several inputs are combined" % fname, bool(mk) == bool(more), "with %s further inputs the function %s" % ("some" if more else "no", "builds the operation" if mk else "returns its first input alone (the others are ignored)"), where_of(fi), trace_of(p))
             if not mk:
                 kinds.add("single")
                 rep.ob("R-FANOUT", "%s: a single input is returned as is" % fname, p.value == ("param", fi.params[0]), "returns %s" % fmt(p.value), where_of(fi))
